@@ -49,12 +49,12 @@ func runEngine(cf *casesFile, dir string) {
 	defer cancel()
 	st, err := store.Open(filepath.Join(dir, "sqlstore"), store.DefaultOptions().WithSynced(false).WithMultiIndexing(true))
 	vh.Must(err, "open sqlstore")
-	defer st.Close()
+	defer closeAll(st)
 	e, err := sql.NewEngine(st, sql.DefaultOptions().WithPrefix([]byte("sql")))
 	vh.Must(err, "sql.NewEngine")
 
-	runRows(ctx, e, cf)
-	runIndexOrder(ctx, e, cf)
+	guardFor(10*time.Minute, "sql.engine:rows", func() { runRows(ctx, e, cf) })
+	guardFor(10*time.Minute, "sql.engine:index-order", func() { runIndexOrder(ctx, e, cf) })
 }
 
 func rowRep(t, which string) interface{} {
@@ -114,12 +114,18 @@ func runRows(ctx context.Context, e *sql.Engine, cf *casesFile) {
 		names = append(names, n)
 		ph = append(ph, "@"+n)
 	}
-	vh.Must(execAll(ctx, e, "CREATE TABLE rowst (id INTEGER, "+strings.Join(cols, ", ")+", PRIMARY KEY id)", nil), "create rows table")
+	if !step("sql.engine", "encode", "rows-table", "create", 60*time.Second, nil, func() error {
+		return execAll(ctx, e, "CREATE TABLE rowst (id INTEGER, "+strings.Join(cols, ", ")+", PRIMARY KEY id)", nil)
+	}) {
+		return
+	}
 	ins := "INSERT INTO rowst (id, " + strings.Join(names, ", ") + ") VALUES (@id, " + strings.Join(ph, ", ") + ")"
 	const batch = 150
 	for lo := 0; lo < len(cf.Rows); lo += batch {
-		tx, _, err := e.Exec(ctx, nil, "BEGIN TRANSACTION", nil)
-		vh.Must(err, "BEGIN")
+		var tx *sql.SQLTx
+		if !step("sql.engine", "encode", "rows-table", "begin", 60*time.Second, nil, func() error { x, _, err := e.Exec(ctx, nil, "BEGIN TRANSACTION", nil); tx = x; return err }) {
+			return
+		}
 		for k := lo; k < lo+batch && k < len(cf.Rows); k++ {
 			params := map[string]interface{}{"id": int64(k + 1)}
 			for i, t := range cf.RowTypes {
@@ -132,12 +138,15 @@ func runRows(ctx context.Context, e *sql.Engine, cf *casesFile) {
 			}
 			tx = ntx
 		}
-		_, _, err = e.Exec(ctx, tx, "COMMIT", nil)
-		vh.Must(err, "commit rows")
+		if !step("sql.engine", "encode", "rows-table", "commit", 120*time.Second, nil, func() error { _, _, err := e.Exec(ctx, tx, "COMMIT", nil); return err }) {
+			return
+		}
 	}
 	readBack := func(query, law string) {
-		rd, err := e.Query(ctx, nil, query, nil)
-		vh.Must(err, "query rows")
+		var rd sql.RowReader
+		if !step("sql.engine", "decode", "rows-table", law, 60*time.Second, nil, func() error { x, err := e.Query(ctx, nil, query, nil); rd = x; return err }) {
+			return
+		}
 		defer rd.Close()
 		seen := 0
 		for {
@@ -145,7 +154,10 @@ func runRows(ctx context.Context, e *sql.Engine, cf *casesFile) {
 			if errors.Is(err, sql.ErrNoMoreRows) {
 				break
 			}
-			vh.Must(err, "read rows")
+			if err != nil {
+				res.Violate("sql.engine:roundtrip:decoder-rejects-encoder-output:rows-table:"+law, fmt.Sprintf("%s: reading back the inserted rows fails after %d rows: %v", query, seen, err), nil)
+				return
+			}
 			id := int(row.ValuesByPosition[0].RawValue().(int64))
 			rec := cf.Rows[id-1]
 			seen++
@@ -212,8 +224,14 @@ func runIndexOrder(ctx context.Context, e *sql.Engine, cf *casesFile) {
 	}
 	for _, tb := range tbls {
 		name := "ix_" + strings.ToLower(tb.t)
-		vh.Must(execAll(ctx, e, fmt.Sprintf("CREATE TABLE %s (id INTEGER, v %s, PRIMARY KEY id)", name, tb.decl), nil), "create "+name)
-		vh.Must(execAll(ctx, e, fmt.Sprintf("CREATE INDEX ON %s (v)", name), nil), "create index "+name)
+		if !step("sql.engine", "encode", tb.t, "create-table-and-index", 60*time.Second, nil, func() error {
+			if err := execAll(ctx, e, fmt.Sprintf("CREATE TABLE %s (id INTEGER, v %s, PRIMARY KEY id)", name, tb.decl), nil); err != nil {
+				return err
+			}
+			return execAll(ctx, e, fmt.Sprintf("CREATE INDEX ON %s (v)", name), nil)
+		}) {
+			continue
+		}
 		n := len(tb.vals)
 		rel := make([][]int, n)
 		for i := range rel {
@@ -238,8 +256,10 @@ func runIndexOrder(ctx context.Context, e *sql.Engine, cf *casesFile) {
 				bad[i] = err != nil || !rawEqual(tb.t, dv.RawValue(), v.raw)
 			})
 		}
-		tx, _, err := e.Exec(ctx, nil, "BEGIN TRANSACTION", nil)
-		vh.Must(err, "BEGIN")
+		var tx *sql.SQLTx
+		if !step("sql.engine", "encode", tb.t, "begin", 60*time.Second, nil, func() error { x, _, err := e.Exec(ctx, nil, "BEGIN TRANSACTION", nil); tx = x; return err }) {
+			continue
+		}
 		inserted := make([]bool, n)
 		// insertion order is a seeded permutation so that the index, not the insertion order, sorts
 		perm := permutation(n, seed)
@@ -252,19 +272,29 @@ func runIndexOrder(ctx context.Context, e *sql.Engine, cf *casesFile) {
 			tx = ntx
 			inserted[i] = true
 		}
-		_, _, err = e.Exec(ctx, tx, "COMMIT", nil)
-		vh.Must(err, "commit "+name)
+		if !step("sql.engine", "encode", tb.t, "commit", 120*time.Second, nil, func() error { _, _, err := e.Exec(ctx, tx, "COMMIT", nil); return err }) {
+			continue
+		}
 
 		for _, dir := range []string{"ASC", "DESC"} {
-			rd, err := e.Query(ctx, nil, fmt.Sprintf("SELECT id, v FROM %s USE INDEX ON (v) ORDER BY v %s", name, dir), nil)
-			vh.Must(err, "query "+name)
+			var rd sql.RowReader
+			if !step("sql.engine", "decode", tb.t, "index-scan-"+dir, 60*time.Second, nil, func() error {
+				x, err := e.Query(ctx, nil, fmt.Sprintf("SELECT id, v FROM %s USE INDEX ON (v) ORDER BY v %s", name, dir), nil)
+				rd = x
+				return err
+			}) {
+				continue
+			}
 			var ids []int
 			for {
 				row, err := rd.Read(ctx)
 				if errors.Is(err, sql.ErrNoMoreRows) {
 					break
 				}
-				vh.Must(err, "read "+name)
+				if err != nil {
+					res.Violate("sql.engine:roundtrip:decoder-rejects-encoder-output:"+tb.t+":index-scan-"+dir, fmt.Sprintf("%s: reading the inserted values back through the index fails after %d rows: %v", tb.t, len(ids), err), nil)
+					break
+				}
 				id := int(row.ValuesByPosition[0].RawValue().(int64)) - 1
 				ids = append(ids, id)
 				got := row.ValuesByPosition[1].RawValue()
@@ -315,7 +345,10 @@ func runIndexOrder(ctx context.Context, e *sql.Engine, cf *casesFile) {
 				}
 			}
 			rd, err := e.Query(ctx, nil, fmt.Sprintf("SELECT id FROM %s USE INDEX ON (v) WHERE v = @v", name), map[string]interface{}{"v": param(tb.t, v.raw)})
-			vh.Must(err, "eq query "+name)
+			if err != nil {
+				res.Violate(fmt.Sprintf("sql.engine:index-equality-error:%s:%s", tb.t, v.cls), err.Error(), nil)
+				continue
+			}
 			got := 0
 			for {
 				_, err := rd.Read(ctx)
